@@ -172,7 +172,7 @@ for sh, K, V in (("u8", "u8", "u8"), ("id", "Key", "u8"), ("zst", "()", "()")):
                             "entry_or_default", "vacant_insert")):
         ns_q = N_(0) if sh == "zst" else (N_(0, 1, 2) if i < 2 else N_(0, 2))
         ns_t = N_(0) if sh == "zst" else T3
-        add("c03_full_%s_%s" % (op, sh), "c03::h_full_map::<%s, %s, {N}>(%d)" % (K, V, i), ["C03"], ns_q, ns_t, profile="both",
+        add("c03_full_%s_%s" % (op, sh), "c03::h_full_map::<%s, %s, {N}>(%d)" % (K, V, i), ["C03"] + (["C01"] if i < 2 and sh == "u8" else []), ns_q, ns_t, profile="both",
             expect=PANIC(*FULL_PANIC), fn="Map::" + op.replace("entry_", "entry(..).").replace("vacant_insert", "VacantEntry::insert") + " on a full map (must panic)", shape="S_" + sh)
     if sh != "zst":
         for i, op in enumerate(("insert", "insert_key_value", "checked_insert", "entry_or_insert")):
@@ -319,7 +319,7 @@ add("c13_overlap", "c13::h_disjoint_overlap::<{N}, {J}>()", ["C13"], NJ([(1, 2),
 # ------------------------------------------------------------------ C17 lawless Eq
 LAW_OK = FULL_PANIC + OVERLAP_PANIC + INDEX_PANIC
 for i, op in enumerate(("insert", "insert_key_value", "checked_insert", "remove", "remove_entry", "lookups", "entry_or_insert", "retain", "entry_remove")):
-    add("c17_" + op, "c17::h_law_map::<{N}>(%d)" % i, ["C17"], N_(1, 2), N_(1, 2, 3), profile="both" if i in (0, 6) else "debug", expect=MAYPANIC(*LAW_OK),
+    add("c17_" + op, "c17::h_law_map::<{N}>(%d)" % i, ["C17"], N_(1, 2), N_(1, 2, 3), profile="both" if i in (0, 1, 2, 6) else "debug", expect=MAYPANIC(*LAW_OK),
         fn="Map::%s under arbitrary outcomes of every key comparison" % op, shape="S_law")
 add("c17_eq", "c17::h_law_eq::<{N}, {M}>()", ["C17"], NM([(1, 1), (2, 2)]), NM([(2, 2), (3, 2), (3, 3)]), unwind="max(N,M)+2", expect=MAYPANIC(*LAW_OK),
     fn="PartialEq::eq for Map under lawless ==", shape="S_law")
@@ -414,6 +414,22 @@ for wi, nm in enumerate(ITERS):
         add("drv_%s_%s" % (nm, op), "derived::h_derived::<{N}>(%d, %d, {A}, {B}, {C})" % (wi, oi), P,
             [{"N": n, "A": a, "B": b, "C": c} for n, a, b, c in q], [{"N": n, "A": a, "B": b, "C": c} for n, a, b, c in th],
             unwind="8", fn="%s::%s agrees with stepping by next()" % (nm, op), shape="S_u8")
+
+# ------------------------------------------------------------------ second round additions: defaulted trait methods, lying sources
+for sh, K, V in (("u8", "u8", "u8"), ("id", "Key", "u8")):
+    add("c15_clone_from_" + sh, "c14::h_clone_from::<%s, %s, {N}>()" % (K, V), ["C15"], N_(0, 2), T3, fn="Clone::clone_from for Map and Set", shape="S_" + sh)
+add("own_clone_from", "life::h_clone_from::<{N}>()", ["C15", "C02"], N_(1, 2), N_(1, 2, 3), fn="Clone::clone_from for Map (ownership ledger)", shape="S_tok")
+for wi, nm in enumerate(("into_iter", "into_keys", "into_values", "drain")):
+    for oi, op in enumerate(("nth", "last", "count", "fold")):
+        add("own_%s_%s" % (nm, op), "life::h_consume_derived::<{N}>(%d, %d, false)" % (wi, oi), ["C02", "C10"], N_(2), N_(1, 2, 3), unwind="N+3",
+            fn="%s().%s: every element destroyed exactly once" % (nm, op), shape="S_tok")
+add("c03_full_from_liar", "c03::h_full_from_liar::<{N}, {L}>()", ["C03", "C16", "C17"], [{"N": 0, "L": 1}, {"N": 1, "L": 2}, {"N": 2, "L": 3}], [{"N": 0, "L": 1}, {"N": 1, "L": 2}, {"N": 2, "L": 3}, {"N": 3, "L": 4}],
+    unwind="L+2", profile="both", expect=PANIC(*FULL_PANIC), fn="FromIterator for Map from a source whose size_hint under-reports (must panic, no write outside)", shape="S_u8")
+
+add("c20_decode_arbitrary_set", "c20::h_decode_arbitrary::<{M}>({A}, true)", ["C20", "C05"], [{"M": 2, "A": 2}, {"M": 2, "A": 3}], [{"M": 2, "A": 3}, {"M": 3, "A": 3}, {"M": 1, "A": 2}],
+    unwind="6", features=("serde",), fn="Deserialize for Set on input with repeated elements", shape="S_u8", timeout="40m")
+add("c20_decode_arbitrary_map", "c20::h_decode_arbitrary::<{M}>({A}, false)", ["C20", "C05"], [{"M": 2, "A": 2}, {"M": 2, "A": 3}], [{"M": 2, "A": 3}, {"M": 3, "A": 3}, {"M": 1, "A": 2}],
+    unwind="6", features=("serde",), fn="Deserialize for Map on input with repeated keys", shape="S_u8", timeout="40m")
 
 
 def units_for(prop):
